@@ -561,3 +561,8 @@ def roots(repo: Repo, modules: Iterable[str]) -> List[FuncInfo]:
     for ff in flats:
         inlined |= set(getattr(ff, "inlined", ()))
     return [ff for ff in flats if ff.qn not in inlined]
+
+
+def has_pos(path, i: int) -> bool:
+    """the path takes the i-th component of a sequence: by index X[i] or by unpacking  a, b, c = X"""
+    return f"item:{i}" in path or f"unpack:{i}" in path
